@@ -1629,6 +1629,18 @@ fn rich_message(rng: &mut Rng, n: u64) -> (String, String) {
         }
         s.push('\n');
     }
+    // now and then a message with a very wide vocabulary in which every word occurs equally often (one delta with
+    // hundreds of distinct, tied terms: whatever a summary keeps of them must not depend on anything but the text)
+    if rng.chance(1, 9) {
+        let distinct = 150 + rng.usize(400);
+        let reps = 1 + rng.usize(2);
+        for _ in 0..reps {
+            for k in 0..distinct {
+                s.push_str(&format!("term{k:03}x{} ", n % 7));
+            }
+            s.push('\n');
+        }
+    }
     (actor, s)
 }
 
